@@ -1216,3 +1216,126 @@ package tengo
 // error values handed over by the host are read-only
 //@ func interface error.Error
 //@   assigns nothing
+
+// ---------------------------------------------------------------------------
+// builtins: no index, slice, nil, type-assertion, allocation-size or division failure for any
+// argument list (C01: a builtin answers with a value or an error, never with a Go panic)
+// ---------------------------------------------------------------------------
+
+//@ func builtinTypeName
+//@   props C01
+//@   assigns *
+
+//@ func builtinIsString
+//@   props C01
+//@   assigns *
+
+//@ func builtinIsInt
+//@   props C01
+//@   assigns *
+
+//@ func builtinIsFloat
+//@   props C01
+//@   assigns *
+
+//@ func builtinIsBool
+//@   props C01
+//@   assigns *
+
+//@ func builtinIsChar
+//@   props C01
+//@   assigns *
+
+//@ func builtinIsBytes
+//@   props C01
+//@   assigns *
+
+//@ func builtinIsArray
+//@   props C01
+//@   assigns *
+
+//@ func builtinIsImmutableArray
+//@   props C01
+//@   assigns *
+
+//@ func builtinIsMap
+//@   props C01
+//@   assigns *
+
+//@ func builtinIsImmutableMap
+//@   props C01
+//@   assigns *
+
+//@ func builtinIsTime
+//@   props C01
+//@   assigns *
+
+//@ func builtinIsError
+//@   props C01
+//@   assigns *
+
+//@ func builtinIsUndefined
+//@   props C01
+//@   assigns *
+
+//@ func builtinIsFunction
+//@   props C01
+//@   assigns *
+
+//@ func builtinIsCallable
+//@   props C01
+//@   assigns *
+
+//@ func builtinIsIterable
+//@   props C01
+//@   assigns *
+
+//@ func builtinLen
+//@   props C01
+//@   assigns *
+
+//@ func builtinRange
+//@   props C01
+//@   assigns *
+//@   loop 0 invariant seen: (rangeindex >= 0 ==> start != nil) && (rangeindex >= 1 ==> stop != nil)
+
+//@ func builtinFormat
+//@   props C01
+//@   assigns *
+
+//@ func builtinCopy
+//@   props C01
+//@   assigns *
+
+//@ func builtinString
+//@   props C01
+//@   assigns *
+
+//@ func builtinInt
+//@   props C01
+//@   assigns *
+
+//@ func builtinFloat
+//@   props C01
+//@   assigns *
+
+//@ func builtinBool
+//@   props C01
+//@   assigns *
+
+//@ func builtinChar
+//@   props C01
+//@   assigns *
+
+//@ func builtinBytes
+//@   props C01
+//@   assigns *
+
+//@ func builtinTime
+//@   props C01
+//@   assigns *
+
+//@ func builtinDelete
+//@   props C01
+//@   assigns *
+
